@@ -435,6 +435,7 @@ JudgeProvideSingle(s, e, p) ==
        \* where the scenario's author knows the two-step sequence works (recorded as expect_ok), the one-step form works too
        C14_available_where_the_two_steps_are |-> G("expect_ok" \in DOMAIN e /\ e.expect_ok, e.ok),
        C14_accepted_only_if_the_two_steps_would_be |-> G(good /\ half # Z /\ pl.kind = "cp" /\ AllPositive(resMid),
+                                                         /\ pl.sw /\ pl.dep
                                                          /\ SwapAllowedNoBelief(pl, o, a, half, q.ret, Tol(e.swap_slip))
                                                          /\ ((e.liq_slip.set /\ BLe(e.liq_slip.v, Dec18)) => DepositRatioWithin(dep, resMid, e.liq_slip.v))),
        C20_pool_rejected_noop  |-> G(~e.ok, Unchanged(s, p)) ]
@@ -511,6 +512,8 @@ JudgeUpdateConfig(s, e, p) ==
                                                                  /\ Pools(p)[tg.pool] = [Pools(s)[tg.pool] EXCEPT !.sw = Flag(@, tg.sw), !.dep = Flag(@, tg.dep), !.wd = Flag(@, tg.wd)]
                                                                  /\ OtherPoolsUnchanged(s, p, {tg.pool})),
        C16_config_update_keeps_pools |-> G(e.ok /\ ~tg.set, Pools(p) = Pools(s)),
+       \* the creation fee that later creations owe is the coin the owner set, denom included
+       C16_creation_fee_is_what_the_owner_set |-> G(e.ok /\ "fee" \in DOMAIN e /\ e.fee.set, p.pmcfg.fee.denom = e.fee.denom /\ p.pmcfg.fee.amt = e.fee.amt),
        C15_pm_config_moves_no_tokens |-> G(e.ok, p.bal = s.bal /\ p.supply = s.supply /\ p.fm.pos = s.fm.pos),
        C20_pool_rejected_noop  |-> G(~e.ok, Unchanged(s, p)) ]
 
